@@ -666,23 +666,44 @@ fn c07_offsets(len: usize) -> Vec<usize> {
 	v
 }
 
+/// sub = 4 * prefix length + option combination (OPTS4); the label is "<length>" for the default options, else "<length>/<opts>"
 pub fn c07_label(_spec: &Spec, sub: usize) -> String {
-	sub.to_string()
+	if sub % 4 == 0 { (sub / 4).to_string() } else { format!("{}/{}", sub / 4, OPTS4[sub % 4].2) }
 }
 
-/// `only`: a single prefix length to test (replay of a witness).
-pub fn c07(spec: &Spec, p: &Progress, only: Option<usize>) -> Outcome {
+/// `only`: a single "<prefix length>[/<opts>]" to test (replay of a witness).  Every prefix is read under every option
+/// combination: the property speaks of the one-shot reader, whatever its options.
+pub fn c07(spec: &Spec, p: &Progress, only: Option<&str>) -> Outcome {
 	let (bytes, _) = build(spec);
+	let only: Option<(usize, usize)> = match only {
+		None => None,
+		Some(t) => {
+			let (o, oi) = match t.split_once('/') {
+				Some((o, on)) => (o.parse::<usize>().ok(), OPTS4.iter().position(|x| x.2 == on)),
+				None => (t.parse::<usize>().ok(), Some(0)),
+			};
+			match (o, oi) {
+				(Some(o), Some(oi)) if o < bytes.len() => Some((o, oi)),
+				_ => return viol(format!("{:?} is not a proper prefix length (with options) of a {}-byte file", t, bytes.len())),
+			}
+		}
+	};
 	let offs = match only {
-		Some(o) if o < bytes.len() => vec![o],
-		Some(o) => return viol(format!("prefix length {} is not a proper prefix of a {}-byte file", o, bytes.len())),
+		Some((o, _)) => vec![o],
 		None => c07_offsets(bytes.len()),
 	};
 	for o in offs {
-		match p.timed(o, || read_with(&bytes[..o], None)) {
-			Ok(Err(_)) => {}
-			Ok(Ok(g)) => return Violated { extra: o.to_string(), msg: format!("the first {} of {} bytes were accepted as a complete replay ({} frames)", o, bytes.len(), g.frames.len()) },
-			Err(pn) => return Violated { extra: o.to_string(), msg: format!("the reader panicked on the first {} of {} bytes: {}", o, bytes.len(), pn) },
+		for (oi, (skip, hash, oname)) in OPTS4.iter().enumerate() {
+			if only.map_or(false, |(_, x)| x != oi) {
+				continue;
+			}
+			let op = opts(*skip, *hash);
+			let lab = c07_label(spec, 4 * o + oi);
+			match p.timed(4 * o + oi, || read_with(&bytes[..o], if oi == 0 { None } else { Some(&op) })) {
+				Ok(Err(_)) => {}
+				Ok(Ok(g)) => return Violated { extra: lab, msg: format!("the first {} of {} bytes were accepted as a complete replay ({} frames) with options {}", o, bytes.len(), g.frames.len(), oname) },
+				Err(pn) => return Violated { extra: lab, msg: format!("the reader panicked on the first {} of {} bytes with options {}: {}", o, bytes.len(), oname, pn) },
+			}
 		}
 	}
 	Holds
